@@ -351,7 +351,7 @@ fn hostile_jitter_spec(rng: &mut Prng) -> Spec {
             3 | 4 => Op::U64,
             5 | 6 => Op::Fill(rng.range(0, 33) as u32),
             7 => Op::TimerStats(rng.chance(1, 2)),
-            8 => Op::SetRounds(rng.range(1, 255) as u8),
+            8 => Op::SetRounds(if rng.chance(1, 6) { 0 } else { rng.range(1, 255) as u8 }),
             9 => Op::Fork,
             10 => Op::TestTimer,
             _ => Op::Debug,
@@ -520,6 +520,11 @@ fn run_hostile_jitter(spec: &Spec, st: &mut Stats) -> Result<(), E> {
                 Op::SetRounds(r) => {
                     if *r > 0 {
                         sut(guard(|| g.jitter().unwrap().set_rounds(*r)), "set_rounds")?;
+                    } else {
+                        // the one documented panic: contained (as catch_unwind or a dying worker thread
+                        // would), the generator stays in use - what follows must not panic
+                        let _ = guard(|| g.jitter().unwrap().set_rounds(0));
+                        st.count("probe:set_rounds_0_contained");
                     }
                 }
                 Op::Fork => g = sut(guard(|| g.boxed_clone()), "clone")?,
@@ -564,7 +569,13 @@ impl Scenario for C14 {
         match rng.below(17) {
             0..=3 => hostile_jitter_spec(rng),
             4..=7 => hostile_det_spec(rng),
-            16 => hostile_snapshot_spec(rng),
+            16 => {
+                if rng.chance(1, 6) {
+                    seeding_sweep_spec(rng, "C14", "seeding_sweep")
+                } else {
+                    hostile_snapshot_spec(rng)
+                }
+            }
             _ => {
                 let id = *rng.pick(&SUBS);
                 let scn = super::scenario(id).expect("sub scenario");
@@ -585,6 +596,11 @@ impl Scenario for C14 {
             let r = match spec.variant.as_str() {
                 "hostile_jitter" => run_hostile_jitter(spec, st),
                 "hostile_snapshot" => run_hostile_snapshot(spec, st),
+                "seeding_sweep" => match run_seeding_sweep(spec, st) {
+                    Ok(()) => Ok(()),
+                    Err((i, SutFail::Panic(m))) => Err(E::End(sut_panic(&format!("seeding #{}", i), &m))),
+                    Err((_, SutFail::ClockAbort)) => Ok(()),
+                },
                 _ => run_hostile_det(spec, st),
             };
             match r {
